@@ -193,6 +193,21 @@ func originsOpt(v ssa.Value, keepMakeIface bool) []ssa.Value {
 			}
 		case *ssa.UnOp:
 			if x.Op == token.MUL {
+				// `p.f = v; ... p.f` within one block: the field holds v
+				if fa, ok := x.X.(*ssa.FieldAddr); ok && x.Block() != nil {
+					blk := x.Block()
+					for k := instrIndex(x) - 1; k >= 0; k-- {
+						if s, ok := blk.Instrs[k].(*ssa.Store); ok {
+							if fb, ok := s.Addr.(*ssa.FieldAddr); ok && fb.Field == fa.Field && fb.X == fa.X {
+								walk(s.Val)
+								return
+							}
+						}
+						if _, isCall := blk.Instrs[k].(*ssa.Call); isCall {
+							break // a call may have changed the field
+						}
+					}
+				}
 				if cell := cellOf(x.X); cell != nil {
 					// flow-sensitive within the block: the nearest preceding store wins
 					if blk := x.Block(); blk != nil {
@@ -291,6 +306,12 @@ func anyOrigin(m VM) VM {
 	}
 }
 
+// directOrOrigin matches v itself or any of its origins.
+func directOrOrigin(m VM) VM {
+	inner := anyOrigin(m)
+	return func(v ssa.Value) bool { return v != nil && (m(v) || inner(v)) }
+}
+
 // allOrigins requires every origin to match (and at least one).
 func allOrigins(m VM) VM {
 	return func(v ssa.Value) bool {
@@ -356,7 +377,7 @@ func vParam(name string) VM {
 // vFieldLoad matches a read of field `field` (Type.field form, e.g.
 // "FileInfo.MaxTXID") from a base satisfying base (nil = any).
 func vFieldLoad(field string, base VM) VM {
-	return anyOrigin(func(v ssa.Value) bool {
+	return directOrOrigin(func(v ssa.Value) bool {
 		switch x := v.(type) {
 		case *ssa.UnOp:
 			if x.Op != token.MUL {
